@@ -300,8 +300,18 @@ FILE_POST = dict(region='file_post', file='cmdline/check.c', begin='static int f
                  epilogue='\treturn 0;')
 
 
+CHECK_OPEN = dict(region='check_open', file='cmdline/check.c', scope='static int state_check_process(struct snapraid_state* state, int fix, struct snapraid_parity_handle** parity, block_off_t blockstart, block_off_t blockmax)',
+                  begin='/* if the file is closed or different than the current one */', end='/* read from the file */', max_lines=130, expect_loops=0,
+                  proto='static void region_check_open(struct snapraid_state *state, int fix, block_off_t i, unsigned j, struct snapraid_handle *handle, struct snapraid_disk *disk, struct snapraid_file *file, block_off_t file_pos, struct snapraid_block *block, struct failed_struct *failed, unsigned *failed_count_p, unsigned *error_p, unsigned *unrecoverable_p, unsigned *recovered_p, int *bailed, int *skipped)',
+                  prologue='\tint ret;\n\tchar esc_buffer[ESC_MAX];\n\tunsigned failed_count = *failed_count_p, error = *error_p, unrecoverable_error = *unrecoverable_p, recovered_error = *recovered_p;\n\tint once, fell = 0;\n\tfor (once = 0; once < 1; ++once) { /* per-disk loop body: `continue` leaves it */',
+                  epilogue='\tfell = 1;\n\t}\n\tif (!fell) *skipped = 1;\n\tgoto out;\nbail:\n\t*bailed = 1;\nout:\n\t*failed_count_p = failed_count; *error_p = error; *unrecoverable_p = unrecoverable_error; *recovered_p = recovered_error;\n\t(void)esc_buffer;')
+
+
 def filepost_obs():
-    return [Ob('check.file_post', 'harness/h_filepost.c', 'h_file_post', inject=[FILE_POST], unwind=4, small_path=True, timeout=900, mem=8, cost=6, kind='bounded', bound='one disk slot',
+    return [Ob('check.open.region', 'harness/h_filepost.c', 'h_check_open', inject=[FILE_POST, CHECK_OPEN], defs={'VERIF_OPEN_REGION': None}, unwind=4, small_path=True, timeout=900, mem=8, cost=6, kind='bounded', bound='one disk slot',
+               functions=['state_check_process: region "if the file is closed or different than the current one" .. "read from the file" (cmdline/check.c, extracted mechanically)', 'handle_close (cmdline/handle.c, real)'],
+               note='check / fix, every flag word of the file, what the handle holds, every outcome of close / create / open / truncate, recorded vs actual size and time-stamp, syncedonly'),
+            Ob('check.file_post', 'harness/h_filepost.c', 'h_file_post', inject=[FILE_POST, CHECK_OPEN], unwind=4, small_path=True, timeout=900, mem=8, cost=6, kind='bounded', bound='one disk slot',
                functions=['file_post (cmdline/check.c; whole body extracted mechanically, every callee routed to a recording stub)'],
                note='check / fix, every flag word of the file, excluded / unsynced, last block or not, every block state, what the handle holds, every inode collision (none, same name, another file with any size / stamp), every outcome of close / rename / open / utime')]
 
@@ -687,9 +697,9 @@ ADVISE_FLAGS = dict(region='advise_flags', file='cmdline/support.c', begin='int 
 
 
 CHECK_PARITY = dict(region='check_parity', file='cmdline/check.c', scope='int state_check(struct snapraid_state* state, int fix, block_off_t blockstart, block_off_t blockcount)',
-                    begin='if (fix) {', include_begin=True, end='/* abort if error are present */', end_first_after=True, max_lines=110, expect_loops=4,
-                    proto='static int region_check_parity(struct snapraid_state *state, int fix, block_off_t blockstart, block_off_t blockmax, data_off_t size)',
-                    prologue='\tstruct snapraid_parity_handle parity[LEV_MAX];\n\tstruct snapraid_parity_handle *parity_ptr[LEV_MAX];\n\tunsigned error;\n\tunsigned l;\n\tint ret;',
+                    begin='blockmax = parity_allocated_size(state);', include_begin=True, end='/* abort if error are present */', end_first_after=True, max_lines=130, expect_loops=4,
+                    proto='static int region_check_parity(struct snapraid_state *state, int fix, block_off_t blockstart, block_off_t blockcount)',
+                    prologue='\tblock_off_t blockmax;\n\tdata_off_t size;\n\tstruct snapraid_parity_handle parity[LEV_MAX];\n\tstruct snapraid_parity_handle *parity_ptr[LEV_MAX];\n\tunsigned error;\n\tunsigned l;\n\tint ret;',
                     epilogue='\treturn error != 0 ? -1 : 0;')
 
 
